@@ -33,15 +33,19 @@ example : int16ToRes 12345 = 0x3EC0E400 ∧ int24ToRes (256 * 12345) = 0x3EC0E40
 
 /-- **encode_formats_agree** (encoder clause, per call).  With the encoder's LSB depth ≤ 16, `opus_encode`
     on `pcm`, `opus_encode24` on `256·pcm` and `opus_encode_float` on `pcm/32768` hand the shared core
-    (`opus_encode_native`, an arbitrary function `core` of state, `opus_res` samples, effective depth and
-    analysis samples) identical arguments, hence produce the identical packet and state — for every
-    core, every state, every block of int16 samples. -/
-theorem encode_formats_agree {St Pkt : Type} (core : St → List Nat → Nat → List Nat → Pkt) (st : St)
-    (lsbDepth : Nat) (hd : lsbDepth ≤ 16) (pcm : List Int) (hp : ∀ x ∈ pcm, IsInt16 x)
+    (`opus_encode_native`, an arbitrary function `core` of the state and of the argument tuple `CoreArgs`:
+    `opus_res` samples of the coded frame, frame size, effective depth, the whole analysis buffer as seen
+    through the down-mix callback, analysis size, c1, c2, analysis channels, float_api) identical arguments,
+    hence produce the identical packet and state — for every core, every state, every channel count, every
+    coded frame size (also shorter than the buffer: expert frame duration), every block of int16 samples.
+    The tuple is compared with what the real entry points pass by the correspondence ops `enc16/enc24/encf`. -/
+theorem encode_formats_agree {St Pkt : Type} (core : St → CoreArgs → Pkt) (st : St)
+    (lsbDepth channels frameSize : Nat) (hd : lsbDepth ≤ 16) (pcm : List Int) (hp : ∀ x ∈ pcm, IsInt16 x)
     (fl : List Nat) (hfl : List.Forall₂ FloatOfInt16 pcm fl) :
-    encode24 core st lsbDepth (pcm.map (256 * ·)) = encode16 core st lsbDepth pcm ∧
-    encodeFloat core st lsbDepth fl = encode16 core st lsbDepth pcm :=
-  ⟨encode24_eq_encode16 core st lsbDepth hd pcm hp, encodeFloat_eq_encode16 core st lsbDepth hd pcm hp fl hfl⟩
+    encode24 core st lsbDepth channels frameSize (pcm.map (256 * ·)) = encode16 core st lsbDepth channels frameSize pcm ∧
+    encodeFloat core st lsbDepth channels frameSize fl = encode16 core st lsbDepth channels frameSize pcm :=
+  ⟨encode24_eq_encode16 core st lsbDepth channels frameSize hd pcm hp,
+   encodeFloat_eq_encode16 core st lsbDepth channels frameSize hd pcm hp fl hfl⟩
 
 example : (16 : Nat) ≤ 16 ∧ (∀ x ∈ [(-32768 : Int), 12345], IsInt16 x) ∧
     List.Forall₂ FloatOfInt16 [-32768, 12345] [0xBF800000, 0x3EC0E400] := by
